@@ -41,9 +41,13 @@ def unhx(s):
     return b"" if s == "-" else bytes.fromhex(s)
 
 
-def build_dir():
+FLAVOURS = {None: "", "": "", "uchar": "-funsigned-char"}
+
+
+def build_dir(flavour=None):
+    env = dict(os.environ, VERIF_CFLAGS_EXTRA=FLAVOURS.get(flavour, flavour or ""))
     out = subprocess.run([sys.executable, os.path.join(VERIF, "tools", "build.py")],
-                         stdout=subprocess.PIPE, text=True)
+                         stdout=subprocess.PIPE, text=True, env=env)
     if out.returncode != 0:
         raise SystemExit(3)
     return out.stdout.strip().splitlines()[-1]
